@@ -10,7 +10,7 @@ use serde_json::json;
 pub static SPEC: PropSpec = PropSpec {
     id: "C10",
     level: "exploration",
-    rule: "cases: (type, operator, operand pair) evaluations. int8 / uint8: ALL 65,536 operand pairs x {+ - * / < <= > >= == !=} and all 256 operands of unary minus with operands held in variables (quick: + - / < on int8 and * <= on uint8; thorough: everything); all ten integer types: boundary x boundary and random pairs as variables and as literals (constant path); compound expressions (prefix minus against each binary operator on either side, each pair of binary operators in both nestings, random trees) printed with minimal parentheses at boundary operand triples of all ten types; literal spellings 0..300 and the boundary neighbourhoods of every type in suffix / negated / pattern position with out-of-range spellings required to be rejected; division by zero must fail at run time (also when the quotient is unused, also MIN / -1 wraps); float32 / float64 arithmetic compared against correctly rounded results through ==; float32 literals next to rounding midpoints; *_to_string must be the decimal numeral (integers) / a readable numeral of the same value (floats). non-trivial = operand pair other than (0|1, 0|1); distinct by (type, op, pair)",
+    rule: "cases: (type, operator, operand pair) evaluations. int8 / uint8: ALL 65,536 operand pairs x {+ - * / < <= > >= == !=} and all 256 operands of unary minus with operands held in variables (quick: + - / < on int8 and * <= on uint8; thorough: everything); all eight integer types: boundary x boundary and random pairs as variables and as literals (constant path); compound expressions (prefix minus against each binary operator on either side, each pair of binary operators in both nestings, random trees) printed with minimal parentheses at boundary operand triples of all eight types; literal spellings 0..300 and the boundary neighbourhoods of every type in suffix / negated / pattern position with out-of-range spellings required to be rejected; division by zero must fail at run time (also when the quotient is unused, also MIN / -1 wraps); float32 / float64 arithmetic compared against correctly rounded results through ==; float32 literals next to rounding midpoints; *_to_string must be the decimal numeral (integers) / a readable numeral of the same value (floats). non-trivial = operand pair other than (0|1, 0|1); distinct by (type, op, pair)",
     eval_counter: "evaluations",
     assumptions: &[
         "gomini implements Go's sized integer and float32/float64 arithmetic and constant conversion (calibrated by its own positive controls)",
@@ -21,7 +21,7 @@ pub static SPEC: PropSpec = PropSpec {
     case_cpu_s: 120,
     shards: 0,
     run,
-    floors: &[("evaluations", 200_000, 1_500_000), ("programs_run", 40, 300), ("out_of_range_literals_rejected", 30, 60), ("div_zero_failures_checked", 30, 30), ("float_checks", 500, 5_000), ("compound_evaluations", 50_000, 400_000)],
+    floors: &[("evaluations", 200_000, 1_500_000), ("programs_run", 40, 300), ("out_of_range_literals_rejected", 30, 60), ("div_zero_failures_checked", 30, 30), ("float_checks", 500, 5_000), ("compound_evaluations", 30_000, 400_000)],
     finish: None,
 };
 
@@ -357,7 +357,7 @@ fn ce_random(rng: &mut Rng, nodes: u32) -> CE {
     let left = rng.below(nodes as usize) as u32;
     CE::Bin(op, Box::new(ce_random(rng, left)), Box::new(ce_random(rng, nodes - 1 - left)))
 }
-fn compound_program(case: &mut Case, t: IntTy, rng: &mut Rng, n_random: usize, n_values: usize) {
+fn compound_program(case: &mut Case, t: IntTy, rng: &mut Rng, n_random: usize, n_values: usize, part: usize, nparts: usize) {
     let v = |i: usize| Box::new(CE::V(i));
     let neg = |e: Box<CE>| Box::new(CE::Neg(e));
     let bin = |op: &'static str, l: Box<CE>, r: Box<CE>| Box::new(CE::Bin(op, l, r));
@@ -407,10 +407,15 @@ fn compound_program(case: &mut Case, t: IntTy, rng: &mut Rng, n_random: usize, n
     let mut expected = Vec::new();
     let mut descr = Vec::new();
     for (i, sh) in shapes.iter().enumerate() {
+        // the shapes of one type are spread over `nparts` jobs (same shapes and values in each: same generator state)
+        let mine = i % nparts == part;
         for a in &vals {
             for b in &vals {
                 for c in &vals {
                     if !rng.chance(1, 3) && !(*a == t.max_val() || *a == t.min_val()) {
+                        continue;
+                    }
+                    if !mine {
                         continue;
                     }
                     let env = [*a, *b, *c];
@@ -423,10 +428,10 @@ fn compound_program(case: &mut Case, t: IntTy, rng: &mut Rng, n_random: usize, n
             }
         }
     }
-    case.count("compound_shapes", shapes.len() as u64);
+    case.count("compound_shapes", shapes.iter().enumerate().filter(|(i, _)| i % nparts == part).count() as u64);
     for (ci, chunk) in lines.chunks(500).enumerate() {
         let src = format!("{}fn main() -> unit {{\n{}\n    ()\n}}\n", fns, chunk.join("\n"));
-        let label = format!("compound/{}/{}", t.name(), ci);
+        let label = format!("compound/{}/{}.{}", t.name(), part, ci);
         let Some((out, term, stderr)) = run_program(case, &label, &src, 40_000_000) else { continue };
         if term != Term::Ok {
             case.violation(format!("C10:unexpected-failure:compound/{}", t.name()), format!("{} fails at run time: {:?}", label, term), json!({"label": label, "stderr": stderr, "source": util::truncate(&src, 3000)}));
@@ -807,10 +812,12 @@ fn run(ctx: &mut Ctx) {
             pairs_program(c, t, &mut rng, true, if thorough { 12 } else { 2 })
         }));
         jobs.push(Box::new(move |c| literal_spellings(c, t)));
-        jobs.push(Box::new(move |c| {
-            let mut rng = Rng::keyed(seed, "c10-compound", t.bits() as u64 + t.signed() as u64 * 100, 2);
-            compound_program(c, t, &mut rng, if thorough { 120 } else { 20 }, if thorough { 9 } else { 6 })
-        }));
+        for part in 0..4 {
+            jobs.push(Box::new(move |c| {
+                let mut rng = Rng::keyed(seed, "c10-compound", t.bits() as u64 + t.signed() as u64 * 100, 2);
+                compound_program(c, t, &mut rng, if thorough { 120 } else { 20 }, if thorough { 9 } else { 5 }, part, 4)
+            }));
+        }
         for unused in [false, true] {
             for literal_zero in [false, true] {
                 jobs.push(Box::new(move |c| div_zero(c, t, unused, literal_zero)));
